@@ -187,10 +187,10 @@ open Rosu.Gen.Lifetime
 /-! ## (b) premises, re-extracted from the current source -/
 
 def osuSrcLayout : Layout :=
-  layoutOf osuFields "diff_objects" "osu_objects" ((osuStorage.lookup "objects").getD "?") dropImpls
+  layoutOf osuFields "diff_objects" "osu_objects" ((osuStorage.lookup "objects").getD "?") dropBodies
 
 def taikoSrcLayout : Layout :=
-  layoutOf taikoFields "diff_objects_iter" "diff_objects" ((taikoStorage.lookup "objects").getD "?") dropImpls
+  layoutOf taikoFields "diff_objects_iter" "diff_objects" ((taikoStorage.lookup "objects").getD "?") dropBodies
 
 /-- The extractor followed every shape. -/
 theorem premise_extractor_complete : unknown = [] := by decide
@@ -204,13 +204,28 @@ theorem premise_only_two_static_borrowers :
   decide
 
 /-- `OsuGradualDifficulty`: the borrower `diff_objects` (a `Box` of its own) is declared, hence
-dropped, before the owner `osu_objects`, whose storage is a `Box<[OsuObject]>`; nothing in the crate
-implements `Drop`. -/
+dropped, before the owner `osu_objects`, whose storage is a heap block owned through
+`NonNull<[OsuObject]>` (a leaked `Box<[OsuObject]>`); the only `Drop` impl of the crate is the reviewed
+one of `OsuObjects`. -/
 theorem premise_osu_layout : osuSrcLayout = osuLayout := by decide
 
+/-- **The manual `Drop` is the Box's drop.**  The only `impl Drop` under src/ is `OsuObjects`'s, its
+`fn drop` consists of the single statement `drop(unsafe { Box::from_raw(self.objects.as_ptr()) })` — it
+frees `objects` and nothing else —, the storage field it frees is the raw-pointer storage of
+`OsuGradualDifficulty::osu_objects`, and the borrower `diff_objects` is declared (hence dropped) before
+`osu_objects`: the model's "dropping the owner field frees its block, after the borrower is gone"
+is what the source does. -/
+theorem premise_osu_storage_freed :
+    dropBodies = Rosu.Lifetime.reviewedDrops ∧
+    dropImpls = dropBodies.map (·.1) ∧
+    (Rosu.Lifetime.rawStorageTypes.lookup ((osuStorage.lookup "objects").getD "?")).map
+      (fun hdr => dropImpls.contains hdr) = some true ∧
+    Rosu.Lifetime.orderOf (osuFields.map (·.2.1)) "diff_objects" "osu_objects" = [.borrower, .owner] := by
+  decide
+
 /-- `TaikoGradualDifficulty`: the borrower `diff_objects_iter` is an inline `slice::Iter`, the
-storage is the `Vec` that `iter()` walks, and nothing in the crate implements `Drop` (so the
-borrower's drop glue dereferences nothing).  As written the owner `diff_objects` is declared
+storage is the `Vec` that `iter()` walks, and no `Drop` impl other than the reviewed one of `OsuObjects`
+exists (so the borrower's drop glue dereferences nothing).  As written the owner `diff_objects` is declared
 before the borrower; the opposite order would be sound as well (and is accepted). -/
 theorem premise_taiko_layout :
     (taikoSrcLayout = taikoLayout ∨ taikoSrcLayout = { taikoLayout with order := [.borrower, .owner] }) ∧
@@ -256,7 +271,8 @@ theorem premise_fields_private :
 /-- All premises of part (b) at once. -/
 theorem lifetime_premises_hold :
     unknown = [] ∧ osuSrcLayout = osuLayout ∧
-    osuSrcLayout.safe = true ∧ taikoSrcLayout.safe = true ∧ dropImpls = [] := by decide
+    osuSrcLayout.safe = true ∧ taikoSrcLayout.safe = true ∧
+    dropBodies.all (Rosu.Lifetime.reviewedDrops.contains ·) = true := by decide
 
 /-! ## (b) theorems over all operation sequences -/
 
